@@ -1180,6 +1180,7 @@ class EdgeQLSourceGenerator(codegen.SourceGenerator):
         named: bool = True,
         ignored_cmds: Optional[AbstractSet[qlast.DDLOperation]] = None,
         group_by_system_comment: bool = False,
+        render_commands: bool = True,
     ) -> None:
         self._visit_aliases(node)
         if self.sdlmode:
@@ -1201,12 +1202,17 @@ class EdgeQLSourceGenerator(codegen.SourceGenerator):
             commands = [cmd for cmd in commands
                         if cmd not in ignored_cmds]
 
-        if commands:
+        if not render_commands:
+            pass
+        elif commands:
             self._ddl_visit_body(
                 commands,
                 group_by_system_comment=group_by_system_comment,
                 allow_short=allow_short,
             )
+        elif not node.commands and not self.sdlmode:
+            # ALTER requires a (possibly empty) command block.
+            self.write(' {}')
 
     def _visit_DropObject(
         self,
@@ -2405,6 +2411,12 @@ class EdgeQLSourceGenerator(codegen.SourceGenerator):
                 self.write(f' ({node.code.code})')
             else:
                 had_using = False
+                if (
+                    not node.commands
+                    and isinstance(node, qlast.AlterFunction)
+                ):
+                    # ALTER requires a (possibly empty) command block.
+                    self.write('{}')
         else:
             from_clause = f'USING {node.code.language} '
             self._write_keywords(from_clause)
@@ -2433,7 +2445,7 @@ class EdgeQLSourceGenerator(codegen.SourceGenerator):
         self._visit_AlterObject(
             node, 'FUNCTION',
             after_name=lambda: self._function_after_name(node),
-            ignored_cmds=set(node.commands))
+            render_commands=False)
 
     def visit_DropFunction(self, node: qlast.DropFunction) -> None:
         def after_name() -> None:
